@@ -12,16 +12,22 @@ import OSq.Proofs.Shape
   Batteries module); every theorem holds for every scalar type `α` with `[Scalar α]` and every `atol`, and for the
   state a pass leaves behind when it *raises* as well as for its normal result.
 
-  Hypotheses (explicit): `GStmt.fine r` — no repeated operand, matrix of the right size — is what every `Gate`
-  object constructible in Python satisfies; `CallbackFine f` says the `replace` callback returns only such gates;
-  `Decomposer.Fine atol d` says the same of a built-in decomposer fed such a gate (to be discharged from
-  `OSq.Proofs.Shape`); `Pass.Fine atol p` collects them per pass (`True` for `merge` and `map`).
+  Hypothesis (explicit, the only one besides `Circuit.wf` of the input): `CallbackFine f` — the user callback handed
+  to `Circuit.replace` only returns gates `r` with `GStmt.fine r`, i.e. no repeated operand and a matrix of the
+  right size, which is what every `Gate` object constructible in Python satisfies (constructor checks).  For the
+  built-in decomposers the same property (`Decomposer.Fine`) is *proved*: `decomposer_fine` (from
+  `decomposer_operands_subset` of `OSq.Proofs.Shape`).
 
   Theorems
   * `check_subset`        `checkGateReplacement atol g repl = none` ⇒ every operand of every replacement gate is an
                           operand of `g`.
   * `genLoop_all`         invariant lemma for the accumulator loop shared by `decompose` and `replace`.
-  * `decompose_stmts_wf`, `decompose_wf`   `Circuit.decompose` keeps `Circuit.wf` and the registers (any outcome).
+  * `decompose_stmts_wf`  `decompose` with an arbitrary index-dependent decomposer returning fine gates keeps every
+                          statement well-formed (any outcome); `decompose_wf_of_fine` the same for `Pass.run`.
+  * `decomposer_fine`     every built-in decomposer, fed a fine gate, returns fine gates only;
+    `named_fine`          so does every default-gate generator (`named`), for any name and arguments.
+  * `decompose_wf`        `Circuit.decompose` (any built-in decomposer) keeps `Circuit.wf` and the registers, after
+                          success and after an exception alike — no hypothesis but `c.wf`.
   * `replace_stmts_wf`, `replace_wf`       the same for `Circuit.replace`.
   * `merge_wf`            the same for `merge_single_qubit_gates` (emitted accumulators are rotations on qubits
                           `< nQubits`, barriers are kept as they are) — also after `KeyError` / a failed composition.
@@ -29,7 +35,9 @@ import OSq.Proofs.Shape
                           of `0 … n-1` (`mapIdx_inj`, `hasDup_map_mapIdx`, `Stmt.wf_mapQubits`).
   * `pass_wf`             one pass, any kind.
   * `runPasses_wf`        **main theorem**: for every list of passes (induction on the list), a well-formed circuit
-                          stays well-formed with the same `nQubits`, `nBits`, wherever the sequence stops.
+                          stays well-formed with the same `nQubits`, `nBits`, wherever the sequence stops
+                          (hypothesis: `CallbackFine f` for the `replace f` passes in the list).
+  * `runPasses_wf_builtin`  lists without `replace`: no hypothesis at all.
   * `runPasses_nongates`  passes other than `map` never change, drop, duplicate or reorder comments, measurements,
                           resets.
   * `runPasses_nongates_map`  general form: the non-gate statements of the result are those of the input relabelled
@@ -151,15 +159,14 @@ theorem decompose_stmts_wf (atol : α) (d : Nat → GStmt α → Except Err (Lis
   exact genLoop_all _ _ (fun s => Stmt.wf nq nb s = true) (fun i s r => verdict_wf atol d nq nb hshape i s r)
     stmts 0 [] (by simp) hwf
 
-/-- the shape hypothesis for a built-in decomposer: fed a gate without repeated operands and with a
-    matrix of the right size, it only returns such gates (to be discharged by `OSq.Proofs.Shape`) -/
+/-- the shape property of a built-in decomposer: fed a gate without repeated operands and with a
+    matrix of the right size, it only returns such gates (proved for all of them below: `decomposer_fine`) -/
 def Decomposer.Fine (atol : α) (d : Decomposer) : Prop :=
   ∀ (g : Gate α) (nm : Option (Named α)) (repl : List (GStmt α)),
     hasDup g.operands = false → g.shapeOk = true → d.run atol (g, nm) = .ok repl → ∀ r ∈ repl, GStmt.fine r
 
-/-- **decompose_wf.** The state left by `Circuit.decompose` — after success *or* after an exception — is
-    well-formed and has the same registers. -/
-theorem decompose_wf (atol : α) (d : Decomposer) (c : Circuit α) (hshape : d.Fine atol)
+/-- `decompose_wf` under the shape hypothesis (discharged below for every built-in decomposer) -/
+theorem decompose_wf_of_fine (atol : α) (d : Decomposer) (c : Circuit α) (hshape : d.Fine atol)
     (hwf : c.wf = true) :
     (Pass.run atol (.decompose d) c).1.wf = true ∧
       (Pass.run atol (.decompose d) c).1.nQubits = c.nQubits ∧
@@ -440,28 +447,9 @@ theorem map_wf (atol : α) (m : List Int) (c : Circuit α) (hwf : c.wf = true) :
       exact Stmt.wf_mapQubits m' hv c.nBits t this
     · rw [hr]; exact ⟨hwf, rfl, rfl⟩
 
-/-! ## The built-in decomposers are `Fine` (from `OSq.Proofs.Shape` and `OSq.Proofs.InstrWF`) -/
+/-! ## The built-in decomposers are `Fine` (from `OSq.Proofs.Shape`) -/
 
-omit [Scalar α] in
-theorem GStmt.fine_of_isRot {q : Int} {n : String} {s : GStmt α} (h : IsRot q n s) : GStmt.fine s := by
-  obtain ⟨_, _, _, _, rfl⟩ := h; exact ⟨rfl, rfl⟩
-
-omit [Scalar α] in
-theorem GStmt.fine_of_isCnot {c t : Int} {s : GStmt α} (hct : c ≠ t) (h : IsCnot c t s) : GStmt.fine s := by
-  obtain ⟨_, _, _, rfl⟩ := h
-  refine ⟨?_, rfl⟩
-  simp [Gate.operands, hasDup, hct]
-
-omit [Scalar α] in
-theorem GStmt.fine_singleton {g : Gate α} {nm : Option (Named α)} {repl : List (GStmt α)}
-    (hd : hasDup g.operands = false) (hs : g.shapeOk = true) (h : Except.ok [(g, nm)] = Except.ok (ε := Err) repl) :
-    ∀ r ∈ repl, GStmt.fine r := by
-  injection h with h; subst h
-  intro r hr
-  rw [List.mem_singleton] at hr; subst hr
-  exact ⟨hd, hs⟩
-
-/-- whatever a default-gate generator returns is a constructible gate (`evalGate_wf`) -/
+/-- whatever a default-gate generator returns is a constructible gate (`evalGate_wf` of `OSq.Proofs.InstrWF`) -/
 theorem named_fine {atol : α} {name : String} {args : List (Arg α)} {r : GStmt α}
     (h : named atol name args = .ok r) : GStmt.fine r := by
   simp only [named, bind_ok, pure, Except.pure] at h
@@ -471,34 +459,20 @@ theorem named_fine {atol : α} {name : String} {args : List (Arg α)} {r : GStmt
   obtain ⟨h1, _, _, h4⟩ := evalGate_wf he
   exact ⟨h4, h1⟩
 
-theorem aba_fine (atol : α) (k : ABAKind) : (Decomposer.aba k).Fine atol := by
-  intro g nm repl hd hs h
-  change abaDecompose atol k (g, nm) = .ok repl at h
-  cases g with
-  | bsr q ax an ph =>
-    intro r hr
-    exact (aba_all_rot h r hr).elim GStmt.fine_of_isRot GStmt.fine_of_isRot
-  | matrix m ops =>
-    rw [aba_passthrough atol k _ nm (by intro _ _ _ _ h; cases h)] at h
-    exact GStmt.fine_singleton hd hs h
-  | ctrl c g' =>
-    rw [aba_passthrough atol k _ nm (by intro _ _ _ _ h; cases h)] at h
-    exact GStmt.fine_singleton hd hs h
+/-- **every built-in decomposer only returns constructible gates** (`decomposer_operands_subset`) -/
+theorem decomposer_fine (atol : α) (d : Decomposer) : d.Fine atol := by
+  intro g nm repl hd hs h r hr
+  obtain ⟨_, h2, h3⟩ := decomposer_operands_subset atol d g nm repl hd h r hr
+  exact ⟨h2, h3 hs⟩
 
-theorem cnot_fine (atol : α) : Decomposer.cnot.Fine atol := by
-  intro g nm repl hd hs h
-  change cnotDecompose atol (g, nm) = .ok repl at h
-  by_cases hg : ∃ c t ax an ph, g = .ctrl c (.bsr t ax an ph)
-  · obtain ⟨c, t, ax, an, ph, rfl⟩ := hg
-    have hct := (cnot_shape h).1
-    intro r hr
-    rcases cnot_elems h r hr with h1 | h1 | h1 | h1
-    · exact GStmt.fine_of_isCnot hct h1
-    · exact GStmt.fine_of_isRot h1
-    · exact GStmt.fine_of_isRot h1
-    · exact GStmt.fine_of_isRot h1
-  · rw [cnot_passthrough atol g nm (fun c t ax an ph hh => hg ⟨c, t, ax, an, ph, hh⟩)] at h
-    exact GStmt.fine_singleton hd hs h
+/-- **decompose_wf.** The state left by `Circuit.decompose` with any built-in decomposer — after success *or* after
+    an exception (raised by the decomposer or by the replacement check) — is well-formed and has the same
+    registers. -/
+theorem decompose_wf (atol : α) (d : Decomposer) (c : Circuit α) (hwf : c.wf = true) :
+    (Pass.run atol (.decompose d) c).1.wf = true ∧
+      (Pass.run atol (.decompose d) c).1.nQubits = c.nQubits ∧
+      (Pass.run atol (.decompose d) c).1.nBits = c.nBits :=
+  decompose_wf_of_fine atol d c (decomposer_fine atol d) hwf
 
 /-! ## 3. `replace_wf` -/
 
@@ -545,18 +519,17 @@ theorem replace_wf (atol : α) (name : String) (f : Nat → List (Arg α) → Ex
 
 /-! ## 6. `runPasses_wf` -/
 
-/-- the hypotheses on one pass: the callback of `replace` and the decomposer only return constructible gates -/
-def Pass.Fine (atol : α) : Pass α → Prop
-  | .decompose d => d.Fine atol
+/-- the hypothesis on one pass: the callback of `replace` only returns constructible gates (nothing is assumed
+    about `decompose`, `merge`, `map`) -/
+def Pass.Fine : Pass α → Prop
   | .replace _ f => CallbackFine f
-  | .merge => True
-  | .map _ => True
+  | _ => True
 
 /-- one pass keeps well-formedness and registers, whether it raises or not -/
-theorem pass_wf (atol : α) (p : Pass α) (c : Circuit α) (hp : p.Fine atol) (hwf : c.wf = true) :
+theorem pass_wf (atol : α) (p : Pass α) (c : Circuit α) (hp : p.Fine) (hwf : c.wf = true) :
     (p.run atol c).1.wf = true ∧ (p.run atol c).1.nQubits = c.nQubits ∧ (p.run atol c).1.nBits = c.nBits := by
   cases p with
-  | decompose d => exact decompose_wf atol d c hp hwf
+  | decompose d => exact decompose_wf atol d c hwf
   | replace name f => exact replace_wf atol name f c hp hwf
   | merge => exact merge_wf atol c hwf
   | map m => exact map_wf atol m c hwf
@@ -576,24 +549,35 @@ theorem runPasses_cons_some (atol : α) (p : Pass α) (ps : List (Pass α)) (c c
     circuit with the same registers; if one of the passes raises, the state it left behind (where the sequence
     stops) is well-formed as well.  By induction on the list: any length. -/
 theorem runPasses_wf (atol : α) (ps : List (Pass α)) (c : Circuit α)
-    (hps : ∀ p ∈ ps, p.Fine atol) (hwf : c.wf = true) :
+    (hps : ∀ name f, Pass.replace name f ∈ ps → CallbackFine f) (hwf : c.wf = true) :
     (runPasses atol ps c).1.wf = true ∧
       (runPasses atol ps c).1.nQubits = c.nQubits ∧ (runPasses atol ps c).1.nBits = c.nBits := by
   induction ps generalizing c with
   | nil => exact ⟨hwf, rfl, rfl⟩
   | cons p ps ih =>
-    obtain ⟨h1, h2, h3⟩ := pass_wf atol p c (hps p List.mem_cons_self) hwf
+    have hp : p.Fine := by
+      cases p with
+      | replace name f => exact hps name f List.mem_cons_self
+      | _ => trivial
+    obtain ⟨h1, h2, h3⟩ := pass_wf atol p c hp hwf
     cases hrun : p.run atol c with
     | mk c' oe =>
       rw [hrun] at h1 h2 h3
       cases oe with
       | none =>
         rw [runPasses_cons_none atol p ps c c' hrun]
-        obtain ⟨i1, i2, i3⟩ := ih c' (fun q hq => hps q (List.mem_cons_of_mem _ hq)) h1
+        obtain ⟨i1, i2, i3⟩ := ih c' (fun n f hq => hps n f (List.mem_cons_of_mem _ hq)) h1
         exact ⟨i1, i2.trans h2, i3.trans h3⟩
       | some e =>
         rw [runPasses_cons_some atol p ps c c' e hrun]
         exact ⟨h1, h2, h3⟩
+
+/-- sequences without `replace` (only built-in decomposers, merging, mapping): no hypothesis at all -/
+theorem runPasses_wf_builtin (atol : α) (ps : List (Pass α)) (c : Circuit α)
+    (hps : ∀ name f, Pass.replace name f ∉ ps) (hwf : c.wf = true) :
+    (runPasses atol ps c).1.wf = true ∧
+      (runPasses atol ps c).1.nQubits = c.nQubits ∧ (runPasses atol ps c).1.nBits = c.nBits :=
+  runPasses_wf atol ps c (fun name f h => absurd h (hps name f)) hwf
 
 /-! ## 8. `runPasses_append` -/
 
@@ -849,21 +833,34 @@ theorem fTwice_fine : CallbackFine fTwice := by
     rcases hr with rfl | rfl <;> exact ⟨rfl, rfl⟩
   · cases h
 
+/-- a fourth kind of pass in front: the concrete sequence with a built-in decomposer -/
+def passes4 : List (Pass Int) := [.decompose (.aba .ZYZ), .replace "Rx" fTwice, .merge, .map [1, 0]]
+
 /-- replace `Rx`, merge, swap the two qubits -/
 def passes : List (Pass Int) := [.replace "Rx" fTwice, .merge, .map [1, 0]]
 
-theorem passes_fine : ∀ p ∈ passes, p.Fine (1 : Int) := by
-  intro p hp
+theorem passes_fine : ∀ name f, Pass.replace name f ∈ passes → CallbackFine f := by
+  intro name f hp
   simp only [passes, List.mem_cons, List.not_mem_nil, or_false] at hp
-  rcases hp with rfl | rfl | rfl
-  · exact fTwice_fine
-  · trivial
-  · trivial
+  rcases hp with h | h | h
+  · injection h with _ h; subst h; exact fTwice_fine
+  · cases h
+  · cases h
 
 /-- `runPasses_wf` on a concrete three-pass sequence and a concrete circuit -/
 example : (runPasses (1 : Int) passes circ).1.wf = true ∧
     (runPasses (1 : Int) passes circ).1.nQubits = 2 ∧ (runPasses (1 : Int) passes circ).1.nBits = 1 :=
   runPasses_wf (1 : Int) passes circ passes_fine circ_wf
+
+example : (runPasses (1 : Int) passes4 circ).1.wf = true :=
+  (runPasses_wf (1 : Int) passes4 circ (by
+    intro name f hp
+    simp only [passes4, List.mem_cons, List.not_mem_nil, or_false] at hp
+    rcases hp with h | h | h | h
+    · cases h
+    · injection h with _ h; subst h; exact fTwice_fine
+    · cases h
+    · cases h) circ_wf).1
 
 /-- measurement and reset come out relabelled by the swap, in place -/
 example : (runPasses (1 : Int) passes circ).1.stmts.filter notGate =
@@ -895,33 +892,37 @@ example (c : Circuit Int) (e : Err) (h : (runPasses (1 : Int) [.replace "Rx" fTw
 
 end PipelineExamples
 
-/-- the main theorem for an arbitrary scalar type and a sequence using all four kinds of passes -/
+/-- the main theorem for an arbitrary scalar type and a sequence using all four kinds of passes: the only
+    hypothesis left is the one on the user's callback -/
 example (atol : α) (c : Circuit α) (f : Nat → List (Arg α) → Except Err (List (GStmt α)))
-    (hd : Decomposer.Fine atol .mckay) (hf : CallbackFine f) (hwf : c.wf = true) :
-    (runPasses atol [.decompose .mckay, .replace "H" f, .merge, .map [2, 0, 1]] c).1.wf = true :=
+    (hf : CallbackFine f) (hwf : c.wf = true) :
+    (runPasses atol [.decompose .mckay, .replace "H" f, .merge, .decompose .cnot, .map [2, 0, 1]] c).1.wf = true :=
   (runPasses_wf atol _ c (by
-    intro p hp
+    intro name f' hp
     simp only [List.mem_cons, List.not_mem_nil, or_false] at hp
-    rcases hp with rfl | rfl | rfl | rfl
-    · exact hd
-    · exact hf
-    · trivial
-    · trivial) hwf).1
+    rcases hp with h | h | h | h | h
+    · cases h
+    · injection h with _ h; subst h; exact hf
+    · cases h
+    · cases h
+    · cases h) hwf).1
 
-/-- … and on the executable `Float` model (passes that need no hypothesis) -/
+/-- … and on the executable `Float` model (no hypothesis but well-formedness of the input) -/
 example (c : Circuit Float) (hwf : c.wf = true) :
-    (runPasses Gen.atol [.merge, .map [1, 0, 2], .merge] c).1.wf = true :=
-  (runPasses_wf Gen.atol _ c (by
-    intro p hp
+    (runPasses Gen.atol [.decompose (.aba .ZYZ), .merge, .map [1, 0, 2], .decompose .mckay, .merge] c).1.wf = true :=
+  (runPasses_wf_builtin Gen.atol _ c (by
+    intro name f hp
     simp only [List.mem_cons, List.not_mem_nil, or_false] at hp
-    rcases hp with rfl | rfl | rfl <;> trivial) hwf).1
+    rcases hp with h | h | h | h | h <;> cases h) hwf).1
 
 #print axioms check_subset
 #print axioms decompose_wf
 #print axioms replace_wf
 #print axioms merge_wf
 #print axioms map_wf
+#print axioms decomposer_fine
 #print axioms runPasses_wf
+#print axioms runPasses_wf_builtin
 #print axioms runPasses_nongates_map
 #print axioms runPasses_nongates
 #print axioms runPasses_append
